@@ -448,6 +448,23 @@ static vector<uint64_t> samples(vt::Rng& r, int nbytes, int count) {
   return v;
 }
 
+// the same samples with the bytes above the narrow value filled: all ones (what a sign-extended negative 24 / 48-bit
+// value looks like, e.g. a bswap48s result fed to bswap48s again) or arbitrary - the 24 / 48-bit swaps see only the
+// low bytes of their argument
+static vector<uint64_t> wide_samples(vt::Rng& r, int nbytes, int wbytes, int count) {
+  vector<uint64_t> v = samples(r, nbytes, count);
+  uint64_t wmask = wbytes == 8 ? ~0ULL : ((1ULL << (8 * wbytes)) - 1);
+  uint64_t high = wmask & ~((1ULL << (8 * nbytes)) - 1);
+  for (size_t i = 0; i < v.size(); i++) {
+    if (i % 3 == 0) v[i] |= high;
+    else if (i % 3 == 1)
+      v[i] |= r.next() & high;
+    else if (v[i] & (1ULL << (8 * nbytes - 1)))
+      v[i] |= high;
+  }
+  return v;
+}
+
 int main(int argc, char** argv) {
   if (argc < 4) return 2;
   tr.open(argv[1]);
@@ -531,6 +548,12 @@ int main(int argc, char** argv) {
   helper_batch("bswap48", "bswap", 6, 8, 8, false, samples(r, 6, cnt), [](uint64_t v) { return bswap48(v); });
   helper_batch("bswap48s", "bswap", 6, 8, 8, true, samples(r, 6, cnt), [](uint64_t v) { return (uint64_t)bswap48s((int64_t)v); });
   helper_batch("bswap64", "bswap", 8, 8, 8, false, samples(r, 8, cnt), [](uint64_t v) { return bswap64(v); });
+  helper_batch("bswap24 (high byte set)", "bswap", 3, 4, 4, false, wide_samples(r, 3, 4, cnt / 4), [](uint64_t v) { return (uint64_t)bswap24((uint32_t)v); });
+  helper_batch("bswap24s (high byte set)", "bswap", 3, 4, 4, true, wide_samples(r, 3, 4, cnt / 4), [](uint64_t v) { return (uint64_t)(uint32_t)bswap24s((int32_t)v); });
+  helper_batch("bswap48 (high bytes set)", "bswap", 6, 8, 8, false, wide_samples(r, 6, 8, cnt / 4), [](uint64_t v) { return bswap48(v); });
+  helper_batch("bswap48s (high bytes set)", "bswap", 6, 8, 8, true, wide_samples(r, 6, 8, cnt / 4), [](uint64_t v) { return (uint64_t)bswap48s((int64_t)v); });
+  helper_batch("bswap24s twice", "ext", 3, 4, 4, true, samples(r, 3, cnt / 4), [](uint64_t v) { return (uint64_t)(uint32_t)bswap24s(bswap24s((int32_t)v)); });
+  helper_batch("bswap48s twice", "ext", 6, 8, 8, true, samples(r, 6, cnt / 4), [](uint64_t v) { return (uint64_t)bswap48s(bswap48s((int64_t)v)); });
   helper_batch("bswap<int64_t>", "bswap", 8, 8, 8, false, samples(r, 8, cnt / 4), [](uint64_t v) { return (uint64_t)bswap<int64_t>((int64_t)v); });
   helper_batch("bswap32f", "bswap", 4, 4, 4, false, samples(r, 4, cnt / 4), [](uint64_t v) { return (uint64_t)bswap32f(from_bits<float>(v)); });
   helper_batch("bswap32f(u32)", "bswap", 4, 4, 4, false, samples(r, 4, cnt / 4), [](uint64_t v) { return bits_of<float>(bswap32f((uint32_t)v)); });
